@@ -1,7 +1,7 @@
 (* C01 - property theorems.  Statements, `exact <lemma>`, Print Assumptions. *)
 From Coq Require Import String ZArith List Bool Permutation.
 From HD Require Import Base.Val C01_Model C01_Proofs C01_Proofs_Frames C01_Proofs_Lut C01_Proofs_Value C01_Proofs_Full
-  C01_Proofs_Hist.
+  C01_Proofs_Hist C01_Proofs_Ext C01_Proofs_Sched.
 Import ListNotations.
 Open Scope Z_scope.
 
@@ -332,3 +332,150 @@ Example C01_nonvacuous_history :
   warm_read c3 i3 [0] [0] = Some ([[2;3;0]], Err "ValueError").
 Proof. vm_compute. repeat split. Qed.
 Print Assumptions C01_nonvacuous_history.
+
+(* ------------------------------------------------------------------ *)
+(* extension: every request list, complete label-map view, schedules,   *)
+(* iter_segments                                                        *)
+(* ------------------------------------------------------------------ *)
+(* THE PROPERTY for EVERY request list (strictly stronger than C01_roundtrip /
+   C01_roundtrip_by_frame / C01_roundtrip_any_history, which are the instances
+   req = all sources in order): any sub-list, repetition or reordering of the
+   sources - and, with assert_missing_frames_are_empty, sources that are not
+   there - that passes the query guards reads back as the input planes in the
+   order requested (zeros for absent sources), by instance or by frame, from
+   every object (lazy reader or not) and cache state *)
+Theorem C01_roundtrip_any_request : forall c i perm st,
+  valid c i = true -> Permutation perm (zrange (nsrc c)) -> construct c i perm = Ok st ->
+  forall lazy warm req byframe am,
+    read_guard st req byframe am = Ok tt ->
+    read_g (frame_getter lazy warm st) st req byframe am = Ok (expected_req c i byframe req).
+Proof. exact roundtrip_any_request. Qed.
+Print Assumptions C01_roundtrip_any_request.
+
+(* the query guard of get_pixels_by_source_instance, as iff-statements per outcome *)
+Theorem C01_read_guard_instance_iff : forall st req am,
+  nodup_keys (s_meta st) = true ->
+  (read_guard st req false am = Ok tt <->
+   req <> [] /\ (am = true \/ forall r, In r req -> in_src (s_cfg st) r = true)) /\
+  (read_guard st req false am = Err "KeyError"%string <->
+   req <> [] /\ am = false /\ exists r, In r req /\ in_src (s_cfg st) r = false) /\
+  (read_guard st req false am = Err "ValueError"%string <-> req = []).
+Proof. exact read_guard_instance_iff. Qed.
+Print Assumptions C01_read_guard_instance_iff.
+
+(* THE PROPERTY for the label-map view, complete (replaces the partial
+   characterisation of the refusals; C01_roundtrip_combined is the instance
+   `combinable`, req = all sources): for EVERY valid input and every request list
+   passing the guards, combine_segments=True returns exactly what the input
+   determines - the label map of the requested planes, or the refusal of the first
+   defective requested plane (ValueError: a value other than 0 /
+   MaximumFractionalValue; RuntimeError: a pixel in two segments; segments
+   visited in described order) *)
+Theorem C01_combined_total : forall c i perm st,
+  valid c i = true -> Permutation perm (zrange (nsrc c)) -> construct c i perm = Ok st ->
+  forall lazy warm req byframe am,
+    read_guard st req byframe am = Ok tt ->
+    read_combined (frame_getter lazy warm st) st req byframe am = spec_combined c i byframe req.
+Proof. exact combined_total. Qed.
+Print Assumptions C01_combined_total.
+
+Theorem C01_combined_refusal_iff : forall c i perm st,
+  valid c i = true -> Permutation perm (zrange (nsrc c)) -> construct c i perm = Ok st ->
+  forall lazy warm req byframe am,
+    read_guard st req byframe am = Ok tt ->
+    ((exists x, read_combined (frame_getter lazy warm st) st req byframe am = Ok x) <->
+     (forall r, In r req -> plane_defect c i (src_index byframe r) = None)) /\
+    (forall e, read_combined (frame_getter lazy warm st) st req byframe am = Err e ->
+       exists r, In r req /\ plane_defect c i (src_index byframe r) = Some e).
+Proof. exact combined_refusal_iff. Qed.
+Print Assumptions C01_combined_refusal_iff.
+
+(* "fractional values equal to the input rounded to the stored quantisation":
+   a FRACTIONAL float input x = k/den is stored as v with
+   |v / max_fractional_value - x| <= 1 / (2 max_fractional_value) *)
+Theorem C01_rescaled_error_bound : forall c i j p k,
+  valid c i = true -> dt c = DFloat -> ty c = FRACTIONAL ->
+  let v := expected_pixel c i j p k in
+  let x := match i with
+           | Label ps => nthz p (nthz j ps []) 0
+           | Stack ps => nthz k (nthz p (nthz j ps []) []) 0
+           end in
+  2 * Z.abs (v * den c - x * maxfrac c) <= den c.
+Proof. exact rescaled_error_bound. Qed.
+Print Assumptions C01_rescaled_error_bound.
+
+(* workers: whatever order the pool completes the encode tasks in, the results
+   gathered in submission order are those of the submitted frames ... *)
+Theorem C01_gather_any_schedule : forall (tasks : list (list Z)) pi,
+  Permutation pi (zrange (zlen tasks)) -> gather (pool_run tasks pi) = Ok tasks.
+Proof. exact gather_any_schedule. Qed.
+Print Assumptions C01_gather_any_schedule.
+
+(* ... so the constructor with workers builds the same object as without, for
+   EVERY completion order: all theorems above hold for it *)
+Theorem C01_schedule_independent : forall c i perm st pi,
+  construct c i perm = Ok st -> Permutation pi (zrange (zlen (s_meta st))) ->
+  construct_sched c i perm pi = Ok st.
+Proof. exact sched_independent. Qed.
+Print Assumptions C01_schedule_independent.
+
+(* iter_segments (BINARY / FRACTIONAL) yields only planes of the input, under
+   their segment and with their source ... *)
+Theorem C01_iter_segments_sound : forall c i perm st lazy warm s grp j px,
+  valid c i = true -> Permutation perm (zrange (nsrc c)) -> construct c i perm = Ok st ->
+  ty c <> LABELMAP ->
+  In (s, grp) (iter_segs (frame_getter lazy warm st) st) -> In (j, px) grp ->
+  0 <= j < nsrc c /\
+  exists k, 0 <= k < zlen (segs c) /\ s = nthz k (segs c) 0 /\ px = expected_col c i j k.
+Proof. exact iter_segments_sound. Qed.
+Print Assumptions C01_iter_segments_sound.
+
+(* ... and all of them that are not entirely empty *)
+Theorem C01_iter_segments_complete : forall c i perm st lazy warm j k,
+  valid c i = true -> Permutation perm (zrange (nsrc c)) -> construct c i perm = Ok st ->
+  ty c <> LABELMAP -> 0 <= j < nsrc c -> 0 <= k < zlen (segs c) ->
+  expected_col c i j k <> zeros (npix c) ->
+  exists grp, In (nthz k (segs c) 0, grp) (iter_segs (frame_getter lazy warm st) st) /\
+              In (j, expected_col c i j k) grp.
+Proof. exact iter_segments_complete. Qed.
+Print Assumptions C01_iter_segments_complete.
+
+(* non-vacuity of the extension: a BINARY mask (3 planes x 3 pixels x 2 segments)
+   whose plane 0 has a pixel in both segments: requests avoiding plane 0 (with a
+   repetition and an absent source) read back, stacked and combined; a request
+   containing plane 0 is refused with RuntimeError and plane_defect says so; a
+   truly fractional plane gives ValueError; a reversed completion order of the
+   pool gives the same frames, an incomplete one blocks; iter_segments of the
+   clean mask *)
+Example C01_nonvacuous_extension :
+  let c1 := Cfg BINARY DInt 1 1 true [1; 2] 1 3 1 3 3 true in
+  let i2 := Stack [[[1;1];[0;0];[0;1]]; [[0;0];[0;0];[0;0]]; [[0;1];[1;0];[1;0]]] in
+  let c3 := Cfg FRACTIONAL DFloat 2 3 true [1] 1 3 1 3 1 true in
+  let i3 := Stack [[[1];[2];[0]]] in
+  let c4 := Cfg FRACTIONAL DInt 1 100 true [1; 2] 1 2 1 2 2 false in
+  let i4 := Stack [[[1;0];[0;1]]; [[0;1];[1;0]]] in
+  valid c1 i2 = true /\ valid c3 i3 = true /\ valid c4 i4 = true /\
+  plane_defect c1 i2 0 = Some "RuntimeError"%string /\ plane_defect c1 i2 2 = None /\
+  plane_defect c3 i3 0 = Some "ValueError"%string /\
+  match construct c1 i2 [2;0;1] with
+  | Ok st =>
+      read_guard st [2;1;2;5] false true = Ok tt /\
+      read_g (frame_getter false true st) st [2;1;2;5] false true
+        = Ok [[[0;1];[1;0];[1;0]]; [[0;0];[0;0];[0;0]]; [[0;1];[1;0];[1;0]]; [[0;0];[0;0];[0;0]]] /\
+      read_combined (frame_getter true false st) st [2;1;2;5] false true
+        = Ok [[2;1;1]; [0;0;0]; [2;1;1]; [0;0;0]] /\
+      read_combined (frame_getter false false st) st [2;0] false false = Err "RuntimeError"%string /\
+      spec_combined c1 i2 false [2;0] = Err "RuntimeError"%string
+  | Err _ => False
+  end /\
+  match construct c4 i4 [0;1] with
+  | Ok st =>
+      zlen (s_meta st) = 4 /\
+      construct_sched c4 i4 [0;1] [3;1;0;2] = Ok st /\
+      construct_sched c4 i4 [0;1] [3;1;2] = Err "TimeoutError"%string /\
+      iter_segs (cached_frame st) st
+        = [(1, [(0, [100;0]); (1, [0;100])]); (2, [(0, [0;100]); (1, [100;0])])]
+  | Err _ => False
+  end.
+Proof. exact nonvacuous_extension. Qed.
+Print Assumptions C01_nonvacuous_extension.
